@@ -174,7 +174,8 @@ SPECS["C10"] = dict(
     policy=dict(events="violation", allow_cut=False),
     technique="symbolic execution of the real BKLDLT template on symbolic matrices, all pivoting paths; z3/cvc5 NRA verdict per residual entry and per singularity claim",
     level_text=("bounded symbolic verification in exact real arithmetic: every symmetric (Hermitian) matrix, shift and right-hand side of size n<=3 (thorough 4 / complex 3), "
-                "every pivoting path of the real code; residual identities and the 'refused only if singular' claim proven by the SMT solver"),
+                "every pivoting path of the real code; residual identities and the 'refused only if singular' claim proven by the SMT solver; the pivot selection is proven to obey the "
+                "Bunch-Kaufman growth conditions for every reduced matrix up to 5x5 (mechanism of the backward-error clause)"),
     level_note="rounding and sizes above the bound not covered; trusted: g++, Eigen, z3/cvc5, symx",
 )
 
@@ -266,7 +267,7 @@ SPECS["C02"] = dict(
              "convergence of the iteration itself"],
     policy=dict(events="ignore", allow_cut=False),
     technique="symbolic execution of the real general-solver glue over kernel contracts; z3/cvc5 decide per path convergence-on-current-factorization, pairing and shift obligations",
-    level_text="bounded symbolic verification of the general solver's sequencing, pairing and shift logic over all Ritz data allowed by the kernel contracts, sizes up to (7,1,6), maxit<=2",
+    level_text="bounded symbolic verification of the general solver's sequencing, pairing and shift logic over all Ritz data allowed by the kernel contracts, sizes up to (7,1,6), maxit<=2; complex-shift back-transformation and root selection for real eigenvalues",
     level_note="assume-guarantee over K2,K3,K4; exact arithmetic; no-foreign-tie assumption on the selection key; small sizes",
 )
 
@@ -376,7 +377,7 @@ SPECS["C13"] = dict(
              "(index ncv read in GenEigsBase::restart), not reproduced through the public API"],
     policy=dict(events="violation", allow_cut=False),
     technique="symbolic execution of the real restart-size / restart logic from arbitrary Ritz states and of whole runs over kernel contracts, under Eigen assertions + ASan/UBSan; z3 decides path feasibility",
-    level_text="bounded symbolic verification of index safety and the work bound of the restart logic for all Ritz states at ncv<=8; whole-run paths under sanitizers at small sizes",
+    level_text="bounded symbolic verification of index safety and the work bound of the restart logic for all Ritz states at ncv<=8; whole-run paths under sanitizers at small sizes; operator-argument audit on the symbolic Krylov steps and on 414 degenerate instance runs of the real kernels (enumeration)",
     level_note="kernels abstracted (their own memory safety is exercised by the real-kernel checks C07-C10 built with Eigen assertions); tie-separated conjugate pairs assumed away",
 )
 
@@ -624,8 +625,8 @@ SPECS["C16"] = dict(
     assumptions=["exact real arithmetic", "factor-identity cases: converged eigenvalues of A'A are positive; rank-deficient cases: none"],
     policy=dict(events="violation", allow_cut=False),
     technique="symbolic execution of the SVD operators and of the accessor code from an arbitrary eigen-state; z3 proves the factor identities; mode-P rerun for the history clause",
-    level_text="bounded symbolic verification of operator and accessor algebra at shapes up to 4x3; the eigen-solver underneath is covered by C01/C04/C05/C07",
-    level_note="compositional; exact arithmetic; full-rank assumption",
+    level_text="bounded symbolic verification of operator and accessor algebra at shapes up to 4x3, for full-rank and for rank-deficient (arbitrary eigenvalue) states; the eigen-solver underneath is covered by C01/C04/C05/C07",
+    level_note="compositional; exact arithmetic; factor identities need positive converged eigenvalues, finiteness / non-negativity do not",
 )
 
 
@@ -724,6 +725,6 @@ SPECS["C15"] = dict(
     assumptions=["exact real arithmetic", "cache invariant established by the real update_operator_basis_product (checked)"],
     policy=dict(events="violation", allow_cut=False),
     technique="symbolic execution of the real RitzPairs / SearchSpace / correction code from an arbitrary valid search space with a contract stub for the dense eigen-solver; z3 proves residual and cache identities",
-    level_text="bounded symbolic verification of the residual / convergence / ordering algebra of the Davidson solver at n<=4; the outer loop and the orthogonalisation are not claimed",
-    level_note="building blocks only; exact arithmetic; one known finding (unguarded division) reported as KNOWN-FINDING",
+    level_text="bounded symbolic verification of the residual / convergence / ordering / orthogonalisation algebra of the Davidson solver at n<=4 and of one (thorough: two) passes of the public compute(); convergence of the outer loop is not claimed",
+    level_note="building blocks + up to two passes; exact arithmetic; dense eigen-solver and HouseholderQR are contracts; one known finding (unguarded division) reported as KNOWN-FINDING",
 )
